@@ -76,12 +76,12 @@ PROPS = {
     },
     "C19": {
         "slices": ["tree", "C19"],
-        "relevant_diff": dets_only("Xlsx", "Docx", "Pptx", "Jar", "APK", "Zip", "Epub", "Odt", "Ott", "Ods", "Ots", "Odp", "Otp", "Odg", "Otg", "Odf", "Odc", "Sxc"),
+        "relevant_diff": (lambda f: (lambda part, op: part.startswith("DIFF ziplayout") or f(part, op)))(dets_only("Xlsx", "Docx", "Pptx", "Jar", "APK", "Zip", "Epub", "Odt", "Ott", "Ods", "Ots", "Odp", "Otp", "Odg", "Otg", "Odf", "Odc", "Sxc")),
         "assumptions": COMMON_ASSUME + ["archives come from a standard zip writer; bodies contain no PK\\x03\\x04; entries of realistic length (>= 26 bytes after the 30-byte header) — the statement's own qualifiers"],
         "trusted_base": ["zipContains hand-modelled (Prims.lean); zip children regenerated; tie: walk ops on archive/zip output + oracle from the entry list read back with archive/zip"],
     },
     "C08": {
-        "slices": ["C08"],
+        "slices": ["C08", "C06"],
         "relevant_diff": dets_only("JSON", "GeoJSON", "HAR", "GLTF", "Text"),
         "assumptions": COMMON_ASSUME,
         "trusted_base": ["internal/json/parser.go and jsonHelper hand-modelled (Model/Json.lean); tie: jparse/jdoc/jany ops"],
@@ -152,7 +152,7 @@ PROPS = {
         "trusted_base": ["Is / EqualsAny / lookup hand-modelled over the ParseMediaType model; names and aliases regenerated; tie: is/eqany/parse/res ops over every registered name and alias x decorations"],
     },
     "C07": {
-        "slices": ["tree", "C07", "corpus"],
+        "slices": ["tree", "C07", "corpus", "C05"],
         "relevant_diff": dets_only("Text"),
         "assumptions": COMMON_ASSUME,
         "trusted_base": ["magic.Text hand-modelled (Cust.text); BOM table regenerated from charset.go"],
